@@ -135,6 +135,12 @@ func Subtable(r *rand.Rand, tableType, lookupType, format int, o Opts) gtab.Subt
 	panic(fmt.Sprintf("otl.Subtable: unsupported %s", Name(tableType, lookupType, format)))
 }
 
+// sub returns the options for a component with a byte budget.
+func sub(o Opts, budget int) Opts {
+	o.Bytes = max(budget, 6)
+	return o
+}
+
 // count returns a number of entries in [lo, max(lo, B/per)], limited by the
 // alphabet size.
 func count(r *rand.Rand, B, per, lo int, o Opts) int {
@@ -289,13 +295,13 @@ func numClassesFor(r *rand.Rand, B int) int {
 
 // DSL: len(Rules) equals the number of classes and there is at least one rule.
 func seqCtx2(r *rand.Rand, B int, o Opts) gtab.Subtable {
-	cd := ClassDef(r, numClassesFor(r, B), o)
+	cd := ClassDef(r, numClassesFor(r, B), sub(o, B/4))
 	nc := cd.NumClasses()
 	s := &gtab.SeqContext2{
-		Cov:   CoverageN(r, count(r, B, 8, 1, o), o),
+		Cov:   CoverageN(r, count(r, B/4, 2, 1, o), o),
 		Input: cd,
 	}
-	nRules := max(1, B/40)
+	nRules := max(1, B/50)
 	if o.Bytes == 0 {
 		nRules = 1 + r.IntN(nRules)
 	}
@@ -368,13 +374,13 @@ func chained1(r *rand.Rand, B int, o Opts) gtab.Subtable {
 // DSL: len(Rules) equals the number of input classes; at least one rule.
 func chained2(r *rand.Rand, B int, o Opts) gtab.Subtable {
 	s := &gtab.ChainedSeqContext2{
-		Cov:       CoverageN(r, count(r, B, 10, 1, o), o),
-		Backtrack: ClassDef(r, numClassesFor(r, B), o),
-		Input:     ClassDef(r, numClassesFor(r, B), o),
-		Lookahead: ClassDef(r, numClassesFor(r, B), o),
+		Cov:       CoverageN(r, count(r, B/5, 2, 1, o), o),
+		Backtrack: ClassDef(r, numClassesFor(r, B), sub(o, B/8)),
+		Input:     ClassDef(r, numClassesFor(r, B), sub(o, B/8)),
+		Lookahead: ClassDef(r, numClassesFor(r, B), sub(o, B/8)),
 	}
 	nb, ni, nl := s.Backtrack.NumClasses(), s.Input.NumClasses(), s.Lookahead.NumClasses()
-	nRules := max(1, B/60)
+	nRules := max(1, B/90)
 	if o.Bytes == 0 {
 		nRules = 1 + r.IntN(nRules)
 	}
@@ -510,7 +516,7 @@ func gpos22(r *rand.Rand, B int, o Opts) gtab.Subtable {
 	nf, ns := r.IntN(6) == 0, r.IntN(2) == 0
 	c1 := numClassesFor(r, B)
 	c2 := numClassesFor(r, B)
-	for c1*c2*2*vrMax(o) > max(B, 60) && (c1 > 1 || c2 > 1) {
+	for c1*c2*2*vrMax(o) > max(B/2, 60) && (c1 > 1 || c2 > 1) {
 		if c1 >= c2 {
 			c1 = (c1 + 1) / 2
 		} else {
@@ -518,9 +524,9 @@ func gpos22(r *rand.Rand, B int, o Opts) gtab.Subtable {
 		}
 	}
 	s := &gtab.Gpos2_2{
-		Cov:    CoverageSetN(r, count(r, B, 8, 1, o), o),
-		Class1: ClassDef(r, c1, o),
-		Class2: ClassDef(r, c2, o),
+		Cov:    CoverageSetN(r, count(r, B/6, 2, 1, o), o),
+		Class1: ClassDef(r, c1, sub(o, B/8)),
+		Class2: ClassDef(r, c2, sub(o, B/8)),
 	}
 	if o.DSL {
 		c1, c2 = s.Class1.NumClasses(), s.Class2.NumClasses()
